@@ -111,6 +111,79 @@ def tags(t):
     return s
 
 
+def _rounds(t, lo, hi):
+    """Split t[lo:hi] into reconciles: (record before, events, record after)."""
+    out, prev, cur = [], None, None
+    for r in t[:lo]:
+        if r["ev"] in ("cr", "reset"):
+            prev = r
+    for r in t[lo:hi]:
+        if r["ev"] == "reconcile_begin":
+            cur = []
+        elif r["ev"] == "cr" and cur is not None:
+            out.append((prev, cur, r))
+            prev, cur = r, None
+        elif cur is not None:
+            cur.append(r)
+    return out
+
+
+def _oscillation_signature(t, line):
+    """Known finding D19 only: during the drain the controller keeps assigning an address on interface X although the
+    record it started from holds an idle Valid unbound address of that family on another in-use interface Y of the
+    same class (the demand was already covered elsewhere), and the surplus is trimmed again. Anything else that
+    fails to reach a fixed point keeps the generic label."""
+    d = next((i for i, r in enumerate(t) if r["ev"] == "drain"), None)
+    if d is None:
+        return False
+    rounds = _rounds(t, d, line - 1)
+    if len(rounds) < 8:
+        return False
+    hits, assigns, trims = [], [], []
+    for k, (before, evs, after) in enumerate(rounds):
+        inuse = {x["e"]: x for x in before["enis"] if x["st"] == "InUse"}
+        for r in evs:
+            if r["ev"] in ("create_begin", "delete_begin", "detach", "attach"):
+                return False                      # interfaces come and go: not this defect's shape
+            if r["ev"] == "unassign_begin":
+                trims.append(k)
+            if r["ev"] == "assign_begin":
+                assigns.append(k)
+                x = inuse.get(r["e"])
+                if x is None:
+                    continue
+                v4 = r["fam"] == 4
+                if any(i["p"] == 0 and i["st"] == "Valid" and (i["a"] < 100) == v4 and i["e"] != r["e"]
+                       and i["e"] in inuse and inuse[i["e"]]["rdma"] == x["rdma"] for i in before["ips"]):
+                    hits.append(k)
+    n = len(rounds)
+    recent = lambda ks: any(k >= n - 5 for k in ks)
+    return len(set(hits)) >= 2 and recent(hits) and recent(trims) and len(set(hits)) * 2 >= len(set(assigns)) - 1
+
+
+def _lost_rollback_signature(t, line, e):
+    """Known finding D20 only: interface e was created, its attach failed, the roll-back delete failed and the status
+    update of that very reconcile failed, so the 'Deleting' record never reached the API server."""
+    st = 0
+    for r in t[:line - 1]:
+        ev = r["ev"]
+        if ev == "create_end" and r.get("e") == e:
+            st = 1
+        elif st == 1 and ev == "attach" and r["e"] == e:
+            if r["effect"] or r.get("plan", "ok") == "ok":
+                return False
+            st = 2
+        elif st == 2 and ev == "delete_end" and r["e"] == e:
+            if r["effect"]:
+                return False
+            st = 3
+        elif st == 3 and ev == "cr_write":
+            return not r["ok"]
+        elif st in (1, 2, 3) and ev == "cr":
+            return False                          # the reconcile ended without that sequence
+    return False
+
+
 def classify(prop, t, line):
     """Informational label of a rejection (the verdict is TLC's)."""
     bad = t[line - 1] if 0 < line <= len(t) else {}
@@ -118,10 +191,11 @@ def classify(prop, t, line):
     label = "%s_at_%s" % (prop.lower(), ev)
     if prop == "C08" and ev == "fixpoint":
         if not bad.get("stable"):
-            return "c08_no_fixed_point"
+            return "c08_oscillation_idle_on_other_eni" if _oscillation_signature(t, line) else "c08_no_fixed_point"
         rec = {x["e"] for x in bad.get("enis", [])}
-        if any(not c["att"] or c["e"] not in rec for c in bad.get("cloud", [])):
-            return "c08_leaked_interface"
+        leaked = [c["e"] for c in bad.get("cloud", []) if not c["att"] or c["e"] not in rec]
+        if leaked:
+            return "c08_leak_after_failed_rollback_and_lost_record" if all(_lost_rollback_signature(t, line, e) for e in leaked) else "c08_leaked_interface"
         return "c08_fixed_point_state"
     if prop == "C08" and ev == "assign_begin":
         # over-quota request: right after a describe, into an interface whose map of that family is empty in the record?
